@@ -20,18 +20,21 @@ type specDesc struct {
 	Drop    []string `json:"drop"`    // extension kinds (Go type names) removed from the spec
 	SkipNil bool     `json:"skipnil"` // Config.PreferSkipResumptionOnNilExtension
 	OmitPsk bool     `json:"omitpsk"` // Config.OmitEmptyPsk
+	Alpn    string   `json:"alpn"`    // custom specs: "none" drops the ALPN extension, "other" offers http/1.1 only; else as in the spec
 }
 
 type srvDesc struct {
-	Max   int  `json:"max"`   // MaxVersion (771 / 772)
-	HRR   bool `json:"hrr"`   // CurvePreferences = [P-384]: every parrot used here needs a HelloRetryRequest
-	Keys  int  `json:"keys"`  // which ticket key / ticket store the server owns
-	Store  bool `json:"store"`  // true: WrapSession/UnwrapSession label store; false: SetSessionTicketKeys
-	Cookie int  `json:"cookie"` // > 0: the HelloRetryRequest carries a cookie of this many bytes (verif hook)
+	Max    int      `json:"max"`    // MaxVersion (771 / 772)
+	HRR    bool     `json:"hrr"`    // CurvePreferences = [P-384]: every parrot used here needs a HelloRetryRequest
+	Keys   int      `json:"keys"`   // which ticket key / ticket store the server owns
+	Store  bool     `json:"store"`  // true: WrapSession/UnwrapSession label store; false: SetSessionTicketKeys
+	Cookie int      `json:"cookie"` // > 0: the HelloRetryRequest carries a cookie of this many bytes (verif hook)
+	Alpn   []string `json:"alpn"`   // Config.NextProtos of the server
+	Nonce  int      `json:"nonce"`  // > 0: TLS 1.3 tickets carry a ticket_nonce of this many bytes (verif hook)
 }
 
 type opDesc struct {
-	Op    string `json:"op"`    // SetCache Preset BuildNoSess Build SetRandom SetTicket SetPsk Handshake
+	Op    string `json:"op"`    // SetCache Preset BuildNoSess Build SetRandom SetTicket SetPsk Handshake Yield
 	Arg   string `json:"arg"`   // SetTicket: init|uninit|nil   SetPsk: real|fake|uninit|nil
 	From  string `json:"from"`  // cache the injected session is taken from
 	Forge bool   `json:"forge"` // rebuild the session with MakeClientSessionState under Label
@@ -123,12 +126,22 @@ func (w *world) serverConfig(cd *connDesc, wrapped *[][]byte) *tls.Config {
 	if cd.Srv.HRR {
 		cfg.CurvePreferences = []tls.CurveID{tls.CurveP384}
 	}
-	if cd.Srv.Cookie > 0 {
-		ck := make([]byte, cd.Srv.Cookie)
-		for i := range ck {
-			ck[i] = byte(0xc0 + i%32)
+	cfg.NextProtos = cd.Srv.Alpn
+	if cd.Srv.Cookie > 0 || cd.Srv.Nonce > 0 {
+		ov := &tls.VerifOverride{}
+		if cd.Srv.Cookie > 0 {
+			ov.HRRCookie = make([]byte, cd.Srv.Cookie)
+			for i := range ov.HRRCookie {
+				ov.HRRCookie[i] = byte(0xc0 + i%32)
+			}
 		}
-		tls.VerifSetOverride(cfg, &tls.VerifOverride{HRRCookie: ck})
+		if cd.Srv.Nonce > 0 {
+			ov.TicketNonce = make([]byte, cd.Srv.Nonce)
+			for i := range ov.TicketNonce {
+				ov.TicketNonce[i] = byte(0x11 + 3*i)
+			}
+		}
+		tls.VerifSetOverride(cfg, ov)
 	}
 	if cd.Srv.Store {
 		id := cd.Srv.Keys
@@ -248,6 +261,13 @@ func makeUConn(c net.Conn, cfg *tls.Config, sd *specDesc) (*tls.UConn, *tls.Clie
 		if drop[fmt.Sprintf("%T", e)[len("*tls."):]] {
 			continue
 		}
+		if _, ok := e.(*tls.ALPNExtension); ok {
+			if sd.Alpn == "none" {
+				continue
+			} else if sd.Alpn == "other" {
+				e = &tls.ALPNExtension{AlpnProtocols: []string{"http/1.1"}}
+			}
+		}
 		exts = append(exts, e)
 	}
 	spec.Extensions = exts
@@ -302,63 +322,89 @@ func (w *world) pskFrom(cd *connDesc, od *opDesc) (*tls.UtlsPreSharedKeyExtensio
 	return ext, nil
 }
 
-func runConn(w *world, sid, k int, cd *connDesc) map[string]any {
-	var wrapped [][]byte
-	scfg := w.serverConfig(cd, &wrapped)
-	ccfg := w.clientConfig(cd)
-	mainCache := w.cache(cd.Cache)
-	before := lookAt(mainCache, cd.Name)
+// connRun is one connection of a scenario. Its calls are executed in rounds: a "Yield" call ends the round, so that
+// several connections of one history can be built (BuildHandshakeState) before any of them performs its handshake.
+type connRun struct {
+	w         *world
+	sid, k    int
+	cd        *connDesc
+	wrapped   [][]byte
+	mainCache tls.ClientSessionCache
+	before    stored
+	c, s      *hlib.BufConn
+	srv       *tls.Conn
+	serr      error
+	sstate    tls.ConnectionState
+	cstate    tls.ConnectionState
+	sdone     chan struct{}
+	ops       []opObs
+	prep      opObs
+	u         *tls.UConn
+	custom    *tls.ClientHelloSpec
+	next      int
+	stop      bool
+	hsCalled  bool
+	hsOK      bool
+	cTimeout  bool
+}
 
-	c, s := hlib.BufPipe()
-	dl := time.Now().Add(6 * time.Second)
-	c.SetDeadline(dl)
-	s.SetDeadline(dl)
-	srv := tls.Server(s, scfg)
-	var serr error
-	var sstate tls.ConnectionState
-	sdone := make(chan struct{})
+func startConn(w *world, sid, k int, cd *connDesc) *connRun {
+	r := &connRun{w: w, sid: sid, k: k, cd: cd, sdone: make(chan struct{})}
+	scfg := w.serverConfig(cd, &r.wrapped)
+	ccfg := w.clientConfig(cd)
+	r.mainCache = w.cache(cd.Cache)
+	r.before = lookAt(r.mainCache, cd.Name)
+	r.c, r.s = hlib.BufPipe()
+	r.srv = tls.Server(r.s, scfg)
 	go func() {
-		defer close(sdone)
+		defer close(r.sdone)
 		defer func() {
 			if p := recover(); p != nil {
-				serr = fmt.Errorf("server panic: %v", p)
+				r.serr = fmt.Errorf("server panic: %v", p)
 			}
 		}()
-		serr = srv.Handshake()
-		if serr == nil {
-			sstate = srv.ConnectionState()
-			srv.Write([]byte{42}) // lets the client's Read return after it processed any NewSessionTicket
+		r.serr = r.srv.Handshake()
+		if r.serr == nil {
+			r.sstate = r.srv.ConnectionState()
+			r.srv.Write([]byte{42}) // lets the client's Read return after it processed any NewSessionTicket
 		} else {
-			s.Close() // a server whose handshake failed hangs up
+			r.s.Close() // a server whose handshake failed hangs up
 		}
 	}()
-
-	ops := make([]opObs, len(cd.Ops))
-	for i := range ops {
-		ops[i] = opObs{Op: cd.Ops[i].Op, Arg: cd.Ops[i].Arg, Res: "notrun", Msg: []int{}, Given: noGiven()}
+	r.ops = make([]opObs, len(cd.Ops))
+	for i := range r.ops {
+		r.ops[i] = opObs{Op: cd.Ops[i].Op, Arg: cd.Ops[i].Arg, Res: "notrun", Msg: []int{}, Given: noGiven()}
 	}
-	var u *tls.UConn
-	var custom *tls.ClientHelloSpec
-	prep := opObs{Op: "New", Res: "ok", Msg: []int{}, Given: noGiven()}
+	r.prep = opObs{Op: "New", Res: "ok", Msg: []int{}, Given: noGiven()}
 	func() {
-		defer recoverInto(&prep)
+		defer recoverInto(&r.prep)
 		var err error
-		u, custom, err = makeUConn(c, ccfg, &cd.Spec)
+		r.u, r.custom, err = makeUConn(r.c, ccfg, &cd.Spec)
 		if err != nil {
-			prep.Res = "err"
-			prep.Msg = hlib.Ints([]byte(err.Error()))
+			r.prep.Res = "err"
+			r.prep.Msg = hlib.Ints([]byte(err.Error()))
 		}
 	}()
-	hsCalled, hsOK := false, false
-	cTimeout := false
-	stop := prep.Res == "panic" || u == nil
-	for i := range cd.Ops {
-		if stop {
-			break
+	r.stop = r.prep.Res == "panic" || r.u == nil
+	return r
+}
+
+// step runs the calls of the next round; it returns true if the connection yielded (more calls follow).
+func (r *connRun) step() bool {
+	w, cd, u, mainCache := r.w, r.cd, r.u, r.mainCache
+	for r.next < len(cd.Ops) {
+		if r.stop {
+			return false
 		}
+		i := r.next
+		r.next++
 		od := &cd.Ops[i]
-		o := &ops[i]
+		o := &r.ops[i]
 		gv := &o.Given
+		if od.Op == "Yield" {
+			o.Res = "ok"
+			return true
+		}
 		func() {
 			defer recoverInto(o)
 			var err error
@@ -366,16 +412,16 @@ func runConn(w *world, sid, k int, cd *connDesc) map[string]any {
 			case "SetCache":
 				u.SetSessionCache(mainCache)
 			case "SetRandom": // an edit of the built hello that the documentation allows (SetClientRandom)
-				r := make([]byte, 32)
-				for j := range r {
-					r[j] = byte(0x50 + j)
+				rnd := make([]byte, 32) // a value of the application's choosing, different for every connection
+				for j := range rnd {
+					rnd[j] = byte(0x50 + j + 31*r.k + 7*r.sid)
 				}
-				err = u.SetClientRandom(r)
+				err = u.SetClientRandom(rnd)
 			case "Preset":
-				if custom == nil {
+				if r.custom == nil {
 					panic("harness: Preset on a predefined ClientHelloID")
 				}
-				err = u.ApplyPreset(custom)
+				err = u.ApplyPreset(r.custom)
 			case "BuildNoSess":
 				err = u.BuildHandshakeStateWithoutSession()
 			case "Build":
@@ -418,12 +464,22 @@ func runConn(w *world, sid, k int, cd *connDesc) map[string]any {
 					err = u.SetPskExtension(ext)
 				}
 			case "Handshake":
-				hsCalled = true
+				r.hsCalled = true
+				dl := time.Now().Add(6 * time.Second)
+				r.c.SetDeadline(dl)
+				r.s.SetDeadline(dl)
 				err = u.Handshake()
 				if err == nil {
-					hsOK = true
+					r.hsOK = true
+					func() {
+						defer func() { recover() }()
+						r.cstate = u.ConnectionState()
+						u.SetReadDeadline(time.Now().Add(3 * time.Second))
+						var one [1]byte
+						u.Read(one[:]) // processes any NewSessionTicket: the cache is up to date before the next call
+					}()
 				} else if ne, ok := err.(net.Error); ok && ne.Timeout() {
-					cTimeout = true
+					r.cTimeout = true
 				}
 			default:
 				panic("harness: unknown op " + od.Op)
@@ -436,36 +492,80 @@ func runConn(w *world, sid, k int, cd *connDesc) map[string]any {
 			}
 		}()
 		if o.Res == "panic" {
-			stop = true // the UConn is in no defined state after a panic
+			r.stop = true // the UConn is in no defined state after a panic
 		}
 	}
-	var cstate tls.ConnectionState
-	if hsOK {
-		func() {
-			defer func() { recover() }()
-			cstate = u.ConnectionState()
-			u.SetReadDeadline(time.Now().Add(3 * time.Second))
-			var one [1]byte
-			u.Read(one[:])
-		}()
-	}
-	c.Close()
-	<-sdone
-	s.Close()
-	after := lookAt(mainCache, cd.Name)
+	return false
+}
+
+func (r *connRun) finish() map[string]any {
+	r.c.Close()
+	<-r.sdone
+	r.s.Close()
+	after := lookAt(r.mainCache, r.cd.Name)
 	hellos := [][]int{}
-	for _, h := range hlib.ClientHellos(c.Written()) {
+	for _, h := range hlib.ClientHellos(r.c.Written()) {
 		hellos = append(hellos, hlib.Ints(h))
 	}
 	wl := [][]int{}
-	for _, l := range wrapped {
+	for _, l := range r.wrapped {
 		wl = append(wl, hlib.Ints(l))
 	}
-	return map[string]any{"ev": "Conn", "sid": sid, "k": k, "prep": prep, "ops": ops,
-		"hs_called": hsCalled, "hs_ok": hsOK, "c_timeout": cTimeout,
-		"serr": hlib.Ints([]byte(hlib.ErrStr(serr))), "s_ok": serr == nil,
-		"c_resumed": cstate.DidResume, "s_resumed": sstate.DidResume, "c_vers": int(cstate.Version), "s_vers": int(sstate.Version),
-		"hellos": hellos, "before": before, "after": after, "wrapped": wl}
+	cs, ss := r.cstate, r.sstate
+	return map[string]any{"ev": "Conn", "sid": r.sid, "k": r.k, "prep": r.prep, "ops": r.ops,
+		"hs_called": r.hsCalled, "hs_ok": r.hsOK, "c_timeout": r.cTimeout,
+		"serr": hlib.Ints([]byte(hlib.ErrStr(r.serr))), "s_ok": r.serr == nil,
+		"c_resumed": cs.DidResume, "s_resumed": ss.DidResume, "c_vers": int(cs.Version), "s_vers": int(ss.Version),
+		"c_suite": int(cs.CipherSuite), "s_suite": int(ss.CipherSuite),
+		"c_alpn": hlib.Ints([]byte(cs.NegotiatedProtocol)), "s_alpn": hlib.Ints([]byte(ss.NegotiatedProtocol)),
+		"c_sni": hlib.Ints([]byte(cs.ServerName)), "s_sni": hlib.Ints([]byte(ss.ServerName)),
+		"hellos": hellos, "before": r.before, "after": after, "wrapped": wl}
+}
+
+// runConn runs one connection from its first to its last call (used for the control twin).
+func runConn(w *world, sid, k int, cd *connDesc) map[string]any {
+	r := startConn(w, sid, k, cd)
+	for r.step() {
+	}
+	return r.finish()
+}
+
+// runScenario runs the connections of a scenario in their order; a connection that yields is continued, again in
+// order, after all connections have had their turn.
+func runScenario(sc *scenario, out *hlib.Out) {
+	w := newWorld(sc.Sid)
+	evs := make([]map[string]any, len(sc.Conns))
+	var waiting []*connRun
+	done := func(r *connRun) {
+		ev := r.finish()
+		if r.cd.Ctl {
+			twin := runConn(newWorld(sc.Sid), sc.Sid, r.k, r.cd)
+			ev["ctl_ok"] = twin["hs_ok"].(bool) && twin["s_ok"].(bool)
+		}
+		evs[r.k-1] = ev
+	}
+	for k := range sc.Conns {
+		r := startConn(w, sc.Sid, k+1, &sc.Conns[k])
+		if r.step() {
+			waiting = append(waiting, r)
+		} else {
+			done(r)
+		}
+	}
+	for len(waiting) > 0 {
+		var again []*connRun
+		for _, r := range waiting {
+			if r.step() {
+				again = append(again, r)
+			} else {
+				done(r)
+			}
+		}
+		waiting = again
+	}
+	for _, ev := range evs {
+		out.Emit(ev)
+	}
 }
 
 func init() {
@@ -478,17 +578,7 @@ func init() {
 		}
 		sharedPKI()
 		hlib.Parallel(len(req.Scenarios), func(i int) {
-			sc := &req.Scenarios[i]
-			w := newWorld(sc.Sid)
-			for k := range sc.Conns {
-				cd := &sc.Conns[k]
-				ev := runConn(w, sc.Sid, k+1, cd)
-				if cd.Ctl {
-					twin := runConn(newWorld(sc.Sid), sc.Sid, k+1, cd)
-					ev["ctl_ok"] = twin["hs_ok"].(bool) && twin["s_ok"].(bool)
-				}
-				out.Emit(ev)
-			}
+			runScenario(&req.Scenarios[i], out)
 		})
 		return nil
 	})
